@@ -22,6 +22,9 @@ func checkC12(p *Prog, r *Report) {
 	c12Formats(p, r)
 	c12Century(p, r)
 	c12Closures(p, r)
+	c12InverseShape(p, r)
+	c12ForwardArms(p, r)
+	c12Extract(p, r)
 }
 
 func intArrayLit(info *types.Info, body ast.Node, name string) ([]int64, token.Pos) {
